@@ -77,6 +77,9 @@ def gen_case(rng):
     p['eps'] = 10.0 ** (-rng.randint(1, 12))
     p['guess'] = rng.choice(['none', 'none', 'rank1', 'rank3', 'exact', 'perturbed', 'zeros', 'scaled_rank1', 'scaled_rank2'])
     p['nswp'] = None
+    # 'exact sweep budget': first find out how many sweeps the routine uses, then allow exactly that many, so that the
+    # converged result is produced by the final-permitted-sweep branch (no rank kick) that default runs never execute
+    p['exact_nswp'] = routine in ('fast_matvec', 'dmrg_hadamard') and rng.random() < 0.2
     r = rng.random()
     if r < 0.2:
         pts = sorted(set(rng.randint(0, 40) for _ in range(rng.randint(1, 4))))
@@ -193,6 +196,21 @@ def build(p):
     return A, B, guess, exact, outN, outM
 
 
+def sweeps_used(p, A, B, guess, use_cpp=False):
+    """Runs the routine verbosely with the default sweep limit and counts the sweeps it reports."""
+    import re
+    cap = seams.CaptureFd1()
+    with cap:
+        if p['routine'] == 'fast_matvec':
+            A.fast_matvec(B, eps=p['eps'], initial=guess, use_cpp=use_cpp, verb=True)
+        else:
+            torchtt.dmrg_hadamard(A, B, z0=guess, eps=p['eps'], use_cpp=False, verb=True)
+    m = re.findall(r'Finished after (\d+) sweeps', cap.text)
+    if m:
+        return int(m[-1])
+    return len(re.findall(r'^sweep ', cap.text, flags=re.M))
+
+
 def call_routine(p, A, B, guess):
     r = p['routine']
     kw = {}
@@ -211,6 +229,8 @@ def family(p):
     flags = ''
     if 1 in p['N'] or 1 in p['M']:
         flags += 's'
+    if p.get('exact_nswp'):
+        flags += 'x'
     return '%s|d%d|%s|%s|e%d|%s|%s|%s' % (p['routine'], len(p['N']), p['dt'], p['vals'], round(-math.log10(p['eps'])), p['guess'],
                                          p['plan']['kind'] if p['plan'] else 'nofault', flags)
 
@@ -225,6 +245,12 @@ def exec_case(p, res):
     fam = family(p)
     res['keys'].append(fam)
     desc = {'case': p}
+    if p.get('exact_nswp') and len(p['N']) > 1:
+        seams.seed_global(p['tseed'])
+        ns, exc0, f0 = svdfault.run_with_plan(lambda: sweeps_used(p, A, B, guess), p['plan'] or {})
+        if exc0 is None and ns and ns >= 1:
+            p = dict(p, nswp=int(ns))
+            core.bump(stats, 'probe.exact_sweep_budget')
     seams.seed_global(p['tseed'])
     y, exc, f = svdfault.run_with_plan(lambda: call_routine(p, A, B, guess), p['plan'] or {})
     core.bump(stats, 'calls.' + p['routine'])
